@@ -235,7 +235,9 @@ where
         if s.t.is_none() {
             return;
         }
-        let mut clock = 0i32;
+        // query times start anywhere (negative sweep coordinates included)
+        let base = [0i32, 0, -500, 100_000, -2_000_000_000][(rng.next() % 5) as usize];
+        let mut clock = base;
         for _ in 0..seg_len {
             done += 1;
             if rng.chance(1, 4) {
@@ -280,7 +282,7 @@ where
                 _ => {
                     if rng.chance(1, 4) {
                         s.clear();
-                        clock = 0;
+                        clock = base;
                     } else {
                         s.query(lo, hi, clock, -1, 0, true);
                     }
